@@ -254,6 +254,10 @@ func c15Run(c *explore.Ctx, s *explore.SubStats, cs c15Case) {
 		s.Outcome("coercion-error")
 		return
 	}
+	// the variables as the specification coerces them, from the case description alone
+	// (the library's own VariableValues output is what ArgumentMap is *given*, not what the
+	// expectation is computed from)
+	model := c15ModelVars(cs.Vars)
 	// expected map
 	want := map[string]any{}
 	undecided := false
@@ -268,10 +272,10 @@ func c15Run(c *explore.Ctx, s *explore.SubStats, cs c15Case) {
 		var val any
 		if arg != nil {
 			if arg.Lit.K == "var" {
-				val, has = coerced[cs.Vars[arg.Lit.VarIdx].Name]
+				val, has = model[cs.Vars[arg.Lit.VarIdx].Name]
 			} else {
 				var u bool
-				val, u = arg.Lit.value(coerced, cs.Vars)
+				val, u = arg.Lit.value(model, cs.Vars)
 				if u {
 					undecided = true
 				}
@@ -388,6 +392,163 @@ func c15DiffFeature(cs c15Case, got, want map[string]any) string {
 		return on + " arg=" + d.Name + " src=" + src
 	}
 	return on
+}
+
+var c15DefaultValues = map[string]any{"5": int64(5), `"vd"`: "vd", `{a: 6}`: map[string]any{"a": int64(6)}, "[8]": []any{int64(8)}, "DOG": "DOG", `{q: 1}`: map[string]any{"q": int64(1)},
+	`"i"`: "i", "0.5": 0.5, "false": false, "null": nil, `"EUR"`: "EUR"}
+
+// c15ModelVars: CoerceVariableValues for the (conforming) values the cases supply.
+func c15ModelVars(vars []c15Var) map[string]any {
+	m := map[string]any{}
+	for _, v := range vars {
+		switch v.Supply {
+		case "value":
+			m[v.Name] = v.suppliedValue()
+		case "null":
+			m[v.Name] = nil
+		default:
+			if v.Default != "" {
+				d, ok := c15DefaultValues[v.Default]
+				if !ok {
+					panic("C15: no value for default literal " + v.Default)
+				}
+				m[v.Name] = d
+			}
+		}
+	}
+	return m
+}
+
+// c15Shared: two operations sharing one fragment, the same variable names declared with and
+// without defaults; every supply combination, both orders of the operations.
+func c15Shared(c *explore.Ctx, s *explore.SubStats) {
+	schema := c15Load()
+	decls := [][]c15Var{
+		{{Name: "n", Type: "Int"}, {Name: "c", Type: "String"}},
+		{{Name: "n", Type: "Int", Default: "5"}, {Name: "c", Type: "String", Default: `"EUR"`}},
+		{{Name: "n", Type: "Int", Default: "null"}, {Name: "c", Type: "String"}},
+	}
+	frag := `fragment F on Query { f(n: $n, d: $n, s: $c, l: [$n], o: {a: $n, b: $c}) g @dir(n: $n, d: $n, s: $c) }`
+	argLits := map[string]lit{"n": vr(0), "d": vr(0), "s": vr(1), "l": lst(vr(0)), "o": obj("a", vr(0), "b", vr(1))}
+	dirLits := map[string]lit{"n": vr(0), "d": vr(0), "s": vr(1)}
+	idx := 0
+	for a := range decls {
+		for b := range decls {
+			if a == b {
+				continue
+			}
+			for _, supN := range []string{"absent", "null", "value"} {
+				for _, supC := range []string{"absent", "null", "value"} {
+					for which := 0; which < 2; which++ {
+						idx++
+						if idx%c.NShards != c.Shard {
+							continue
+						}
+						s.States++
+						s.Transitions++
+						s.Executions++
+						ops := []int{a, b}
+						opText := func(name string, d []c15Var) string {
+							var ds []string
+							for _, v := range d {
+								x := "$" + v.Name + ": " + v.Type
+								if v.Default != "" {
+									x += " = " + v.Default
+								}
+								ds = append(ds, x)
+							}
+							return "query " + name + "(" + strings.Join(ds, ", ") + ") { ...F }"
+						}
+						q := opText("First", decls[ops[0]]) + " " + opText("Second", decls[ops[1]]) + " " + frag
+						vars := append([]c15Var{}, decls[ops[which]]...)
+						vars[0].Supply, vars[1].Supply = supN, supC
+						raw := map[string]any{}
+						for _, v := range vars {
+							switch v.Supply {
+							case "null":
+								raw[v.Name] = nil
+							case "value":
+								raw[v.Name] = v.suppliedValue()
+							}
+						}
+						rendered := fmt.Sprintf("%s   execute=%s variables=%s", q, []string{"First", "Second"}[which], goRepr(raw))
+						explore.Crumb(s.Name, rendered)
+						in := map[string]any{"query": q, "operation": which, "variables": raw}
+						bad := func(key, detail, exp, obs string) {
+							c.Report(s, explore.Violation{Key: key, Input: explore.J(in), Rendered: rendered, Detail: detail, Expected: exp, Observed: obs})
+						}
+						doc, errs := gqlparser.LoadQuery(schema, q)
+						if errs != nil {
+							s.Skipped++
+							continue
+						}
+						coerced, cerr := validator.VariableValues(schema, doc.Operations[which], raw)
+						if cerr != nil {
+							s.Skipped++
+							continue
+						}
+						model := c15ModelVars(vars)
+						expect := func(lits map[string]lit) (map[string]any, bool) {
+							want := map[string]any{}
+							und := false
+							for _, d := range c15Defs {
+								l, given := lits[d.Name]
+								has := false
+								var val any
+								if given {
+									if l.K == "var" {
+										val, has = model[vars[l.VarIdx].Name]
+									} else {
+										var u bool
+										val, u = l.value(model, vars)
+										und = und || u
+										has = true
+									}
+								}
+								if !has && d.HasDef {
+									val, has = d.Default, true
+								}
+								if has {
+									want[d.Name] = val
+								}
+							}
+							return want, und
+						}
+						fr := doc.Fragments[0]
+						f := fr.SelectionSet[0].(*ast.Field)
+						g := fr.SelectionSet[1].(*ast.Field)
+						for _, t := range []struct {
+							what string
+							got  func() map[string]any
+							lits map[string]lit
+						}{{"field", func() map[string]any { return f.ArgumentMap(coerced) }, argLits}, {"directive", func() map[string]any { return g.Directives[0].ArgumentMap(coerced) }, dirLits}} {
+							var got map[string]any
+							r := guarded(0, 0, func() { got = t.got() })
+							s.Validated++
+							if r.Panicked {
+								bad("args/panic shared-fragment site="+r.Site, r.PanicVal, "", "")
+								continue
+							}
+							want, und := expect(t.lits)
+							if und {
+								s.Undecided++
+								if !sameKeys(got, want) {
+									bad("args/keys shared-fragment "+t.what, "the argument map does not contain exactly the arguments that have a value", keysOf(want), keysOf(got))
+								}
+								continue
+							}
+							if !reflect.DeepEqual(normNum(normAny(got)), normNum(normAny(want))) {
+								bad("args/value shared-fragment "+t.what, "ArgumentMap in a fragment shared by two operations differs from CoerceArgumentValues for the executed operation", goRepr(want), goRepr(got))
+								continue
+							}
+							s.Nontrivial++
+						}
+						s.Outcome("ok")
+					}
+				}
+			}
+		}
+	}
 }
 
 func sameKeys(a, b map[string]any) bool { return keysOf(a) == keysOf(b) }
@@ -610,6 +771,16 @@ func renumber(l lit, to int) lit {
 		l.Items = items
 	}
 	return l
+}
+
+func init() {
+	prev := registry["C15"].Run
+	registry["C15"].Run = func(c *explore.Ctx) {
+		prev(c)
+		if s := c.Sub("shared-fragments", "two operations that declare the same variables with and without defaults (3 declaration sets, both orders) sharing one fragment that uses them as field and directive arguments (top level, in a list, in an input object) × every supply combination × either operation executed", "ArgumentMap = CoerceArgumentValues for the executed operation", "cases that validate and coerce"); s != nil {
+			c15Shared(c, s)
+		}
+	}
 }
 
 var _ = fmt.Sprint
